@@ -1281,9 +1281,17 @@ def printS (orig : List DS) : Nat → DS → SM (List Tok × Bool)
       let tc ← (match c with | none => pure [] | some e => printE e opExpr : SM (List Tok))
       let tp ← (match p with | none => pure [] | some e => printE e opExpr : SM (List Tok))
       let hasLex := b'.any isLexDecl || (match b' with | [.fn _ _ _ _] => true | _ => false)
+      let st ← get
+      -- (repaired code) a body that is one `var` declaration which lost all its items
+      let emptyDecl : Bool := emptyDeclBodyWritesSemicolon && (match b' with
+        | [.decl _ items] => (match refOf items with
+          | some d => (match st[d]? with | some v => v.items.isEmpty | none => false)
+          | none => false)
+        | _ => false)
       let tb ← (if 1 < b'.length || hasLex then do
             let t ← printL orig fuel b' false
             pure ([Tok.p "{"] ++ t ++ [Tok.p "}"], false)
+          else if emptyDecl then pure ([Tok.p ";"], false)
           else match b' with
             | [s1] => printS orig fuel s1
             | _ => pure ([Tok.p ";"], false) : SM (List Tok × Bool))
